@@ -125,6 +125,36 @@ def moment_tie(ctx, ratios):
     return len(rows)
 
 
+def exact_pass(ctx, r, method, n, order, ratio, w, kappa):
+    """Real-step rules, also when the moment system is badly (but not hopelessly) conditioned: the float weights are applied in EXACT rational
+    arithmetic to the implementation's difference quotient of monomials evaluated on Fractions, so the only error left is that of the weights
+    themselves -- by the perturbation identity of C06 the defect is sum_j (w.M - e_r)_j D_j / h^n, measured on the unchanged tree at
+    <= 0.3 u max|w| sum|D_i| / h^n; bound used: 1e4 u max|w| sum|D_i| / h^n, and only where that is below n!/1000 (otherwise vacuous)."""
+    wq = [Fraction(float(v)) for v in w]
+    hq = [Fraction(float((1.0 / ratio) ** i * 0.5)) for i in range(len(w))]
+    mo = r.method_order
+    for d in range(0, n + mo):
+        def fq(z, d=d):
+            return z ** d
+        try:
+            dq = [Fraction(r.diff(fq, fq(Fraction(0)), Fraction(0), hi)) for hi in hq]
+        except (TypeError, ValueError):
+            return False
+        est = sum(a * b for a, b in zip(wq, dq)) / hq[0] ** n
+        want = Fraction(math.factorial(n)) if d == n else Fraction(0)
+        tol = 10 ** 4 * U * max(abs(v) for v in wq) * sum(abs(b) for b in dq) / hq[0] ** n
+        if tol > Fraction(math.factorial(n), 1000):
+            continue
+        ctx.count(1, ('exact-pass', method))
+        if abs(est - want) > tol:
+            return ctx.violation('inexact:%s:%d:%d' % (method, n, order),
+                                 'LogRule(n=%d, method=%r, order=%d): rule(step_ratio=%r) applied (in exact arithmetic) to the difference quotient of t**%d (degree < n + order = %d) gives %r, exact %r (kappa %.3g)' % (
+                                     n, method, order, ratio, d, n + mo, float(est), float(want), kappa),
+                                 {'method': method, 'n': n, 'order': order, 'step_ratio': ratio, 'degree': d, 'weights': [float(v) for v in w], 'estimate': float(est), 'exact': float(want),
+                                  'how': 'r = LogRule(n, method, order); w = r.rule(ratio); h = 0.5*ratio**-arange(len(w)) as Fractions; sum(Fraction(w_i) * r.diff(lambda z: z**d, Fraction(0)**d, Fraction(0), h_i)) / h_0**n'})
+    return False
+
+
 def search(ctx, nmax, ratios, tables):
     """Apply the implementation's rule to the implementation's difference quotient of monomials at geometric steps."""
     from numdifftools import finite_difference as fdm
@@ -148,8 +178,11 @@ def search(ctx, nmax, ratios, tables):
                 if Minv is None:
                     continue
                 kappa = float(norm_inf(M) * norm_inf(Minv))
+            if method != 'complex' and kappa <= 1e13 and exact_pass(ctx, r, method, n, order, ratio, w, kappa):
+                fdm.FD_RULES.clear()
+                return
             if kappa > 1e8:
-                continue        # ill-conditioned moment system: the statement's "conditioning-scaled rounding" is vacuous there
+                continue        # ill-conditioned moment system: the statement's "conditioning-scaled rounding" is vacuous there (float pass)
             h = np.array([(1.0 / ratio) ** i for i in range(len(w))]) * 0.5
             mo = r.method_order
             for d in range(0, n + mo):
